@@ -409,7 +409,10 @@ class TensorProtoTensor(_core.TensorBase):  # pylint: disable=too-many-ancestors
                 self._proto.raw_data, dtype=dtype.numpy().newbyteorder("<")
             ).reshape(shape)
         if dtype == _enums.DataType.STRING:
-            return np.array(self._proto.string_data).reshape(shape)
+            # An object array: numpy's fixed-width bytes dtype would drop trailing NUL bytes
+            array = np.empty(len(self._proto.string_data), dtype=object)
+            array[:] = list(self._proto.string_data)
+            return array.reshape(shape)
         if self._proto.int32_data:
             assert dtype in {
                 _enums.DataType.BFLOAT16,
